@@ -203,6 +203,14 @@ def r3(ctx, facts):
     nx = [x for x in b.calls_to("Iterator::next") if ih[0].dest[0] in backward_slice(b, x.args[0])[0]]
     okloop = bool(nx) and c.bb in b.reachable_after(c.bb) and all(p.bb in b.reachable_after(nx[0].bb) for p in pool)
     r.instance("all-handlers-before-pool-notice", okloop, "the broadcast is a loop over all handlers, followed by the pool notification", c.span)
+    # promptness: between the first error and the broadcast the router must not wait for anything - whatever it awaits there
+    # (a flush / shutdown of a stalled socket, a lock, a timer) keeps every pending caller hanging
+    ys = [bb for bb in b.live_blocks if b.term(bb)[0] == "yield"]
+    reach = b.reachable_from(err_tg, removed_nodes=[c.bb for c in per_handler] + [c.bb for c in pool])
+    bad = sorted(y for y in ys if y in reach and y != err_tg)
+    r.instance("no-await-before-broadcast", not bad,
+               "after the connection error the router reaches an `.await` before it has told the pending handlers and the pool: if that future does not complete "
+               "(flushing / shutting down a socket whose peer stopped reading), every in-flight request hangs forever", b.term_span(bad[0]) if bad else b.term_span(res_sw))
     # Ok arm returns without broadcasting (connection dropped deliberately)
     r.instance("ok-arm-quiet", ih[0].bb not in b.reachable_from(ok_tg) if ok_tg is not None else False, "Ok(_) (connection dropped by the owner) returns directly", b.term_span(res_sw), nontrivial=False)
 
